@@ -139,7 +139,7 @@ Fixpoint sxreply_ok (ss : list (option svc)) (slot : N) (name : str) (r : sreq) 
   match ss with
   | [] => false
   | None :: rest => sxreply_ok rest (slot + 1) name r
-  | Some s :: rest => if ci_eq name (s_name s) then N.testbit (q_okm r) slot else sxreply_ok rest (slot + 1) name r
+  | Some s :: rest => if s_conf s && ci_eq name (s_name s) then N.testbit (q_okm r) slot else sxreply_ok rest (slot + 1) name r
   end.
 Definition srule_matches (ss : list (option svc)) (ru : rule) (r : sreq) : bool :=
   (match r_acct ru with Some g => fnm g (upto x3a (q_acct r)) | None => true end) &&
